@@ -183,7 +183,7 @@ type config struct {
 	block  *ssa.BasicBlock
 	idx    int
 	s      State
-	facts  []fact // sorted by id
+	facts  []fact    // sorted by id
 	ints   []intFact // concrete values of table-loop indices (tables.go), sorted by id
 	defers []*ssa.Defer
 	parent *config
@@ -938,6 +938,7 @@ func (e *Engine) stepBlock(c0 *config, sum *summary, isRoot bool) []*config {
 					if !e.assume(n, instr.Cond, want, 0) {
 						continue
 					}
+
 					if e.R.OnBranch != nil {
 						x := &Ctx{E: e, Fn: c.fn, Instr: instr, c: n}
 						ns, msg := e.R.OnBranch(x, n.s, instr.Cond, ti == 0)
@@ -946,15 +947,11 @@ func (e *Engine) stepBlock(c0 *config, sum *summary, isRoot bool) []*config {
 							e.violate(n, instr, msg)
 						}
 					}
-					if e.enter(n, b, succ) {
-						next = append(next, n)
-					}
+					next = append(next, e.enterSplit(n, b, succ)...)
 				}
 			case *ssa.Jump:
 				n := c.clone()
-				if e.enter(n, b, b.Succs[0]) {
-					next = append(next, n)
-				}
+				next = append(next, e.enterSplit(n, b, b.Succs[0])...)
 			case *ssa.Return:
 				e.doReturn(c, instr, sum, isRoot)
 			case *ssa.Panic:
@@ -1115,6 +1112,75 @@ func (e *Engine) callees(call ssa.CallInstruction) []*ssa.Function {
 }
 
 // enter moves config n along edge from->to: evaluates φ-nodes, prunes facts.
+// enterSplit enters block to from block from. A boolean φ of the entered block that the block branches on (the
+// result of a short-circuit && / ||) and whose incoming operand is not decided yet is decided here, where the operand
+// is still known: what a later branch on the φ tells about the operand (a tracked flag, a compared value) would be
+// lost otherwise.
+func (e *Engine) enterSplit(n *config, from, to *ssa.BasicBlock) []*config {
+	pi := -1
+	for i, p := range to.Preds {
+		if p == from {
+			pi = i
+			break
+		}
+	}
+	var conds []*ssa.Phi
+	if pi >= 0 {
+		for _, instr := range to.Instrs {
+			phi, ok := instr.(*ssa.Phi)
+			if !ok {
+				break
+			}
+			if phi.Type().String() != "bool" || phi.Referrers() == nil {
+				continue
+			}
+			if _, isK := phi.Edges[pi].(*ssa.Const); isK {
+				continue
+			}
+			for _, r := range *phi.Referrers() {
+				if _, ok := r.(*ssa.If); ok && r.Block() == to {
+					conds = append(conds, phi)
+					break
+				}
+			}
+		}
+	}
+	if len(conds) == 0 {
+		if e.enter(n, from, to) {
+			return []*config{n}
+		}
+		return nil
+	}
+	// decide the operands in the predecessor's context, then enter
+	cur := []*config{n}
+	for _, phi := range conds {
+		op := phi.Edges[pi]
+		var next []*config
+		for _, c0 := range cur {
+			if e.eval(c0, op) != Unknown {
+				next = append(next, c0)
+				continue
+			}
+			for _, k := range []Abs{NonZero, Zero} {
+				m := c0.clone()
+				if e.assume(m, op, k, 0) {
+					e.id(op)
+					e.setFact(m, op, k)
+					next = append(next, m)
+				}
+			}
+		}
+		cur = next
+	}
+	var out []*config
+	for _, m := range cur {
+		if e.enter(m, from, to) {
+			out = append(out, m)
+		}
+	}
+	return out
+}
+
 func (e *Engine) enter(n *config, from, to *ssa.BasicBlock) bool {
 	// find predecessor index
 	pi := -1
